@@ -158,13 +158,20 @@ Definition inv_var (st : store) (ws : list (nat * assign)) (noshell : bool) (x :
   (noshell = true -> ws <> [] ->
      exists t, st x = Some (Txt t) /\ (v_value v = t \/ v_value v = 32 :: t)).
 
-Definition inv (fuel : nat) (pre : program) (s : scope) : Prop :=
-  forall x, inv_var (store_after fuel pre) (writes_of x 0 pre) (no_shell_on x pre) x (mv s x).
+Definition inv_x (fuel : nat) (pre : program) (s : scope) (x : var) : Prop :=
+  inv_var (store_after fuel pre) (writes_of x 0 pre) (no_shell_on x pre) x (mv s x).
 
-Lemma inv_init fuel : inv fuel [] new_scope.
+Lemma inv_x_init fuel x : inv_x fuel [] new_scope x.
 Proof.
-  intro x. unfold inv_var, mv. simpl. repeat split; auto; try discriminate; congruence.
+  unfold inv_x, inv_var, mv. simpl. repeat split; auto; try discriminate; congruence.
 Qed.
+
+(* the part of the invariant that needs no hypothesis on the program *)
+Definition inv_struct (pre : program) (s : scope) : Prop :=
+  forall x, v_writes (mv s x) = writes_of x 0 pre /\ v_cond (mv s x) = false.
+
+Lemma inv_struct_init : inv_struct [] new_scope.
+Proof. intro x. split; reflexivity. Qed.
 
 Lemma inv_var_reads st ws ns x us v :
   inv_var st ws ns x v -> inv_var st ws ns x (apply_reads x us v).
@@ -333,19 +340,20 @@ Proof.
       destruct Hv as [Hv|Hv]; rewrite Hv; [left|right]; reflexivity.
 Qed.
 
-Lemma inv_step fuel pre s l s' vs :
-  eager_plain_line l = true ->
-  inv fuel pre s -> check_line s (length pre) l = Ok (s', vs) -> inv fuel (pre ++ [l]) s'.
+Lemma inv_x_step fuel pre s l s' vs x :
+  (assigns x l = true -> eager_plain_line l = true) ->
+  inv_x fuel pre s x -> check_line s (length pre) l = Ok (s', vs) -> inv_x fuel (pre ++ [l]) s' x.
 Proof.
-  intros Hp Hinv Hck x. specialize (Hinv x).
+  intros Hp Hinv Hck. unfold inv_x in *.
   rewrite (check_line_var _ _ _ _ _ x Hck).
   rewrite store_after_snoc, writes_of_app, no_shell_on_app. simpl writes_of. simpl Nat.add.
   rewrite app_nil_r. unfold no_shell_on at 2. simpl forallb. rewrite andb_true_r.
-  unfold entry, spec_line. destruct (l_body l) as [a|] eqn:Eb; simpl option_map.
+  unfold entry, spec_line. unfold assigns in Hp. destruct (l_body l) as [a|] eqn:Eb; simpl option_map.
   - destruct (str_eqb (a_var a) x) eqn:Ex.
     + apply str_eqb_spec in Ex. apply inv_var_reads. simpl exec_line.
       rewrite andb_true_l.
       apply inv_var_write; auto.
+      specialize (Hp eq_refl).
       rewrite <- splain_spec_line in Hp. unfold spec_line in Hp. rewrite Eb in Hp. exact Hp.
     + apply inv_var_reads. simpl. rewrite app_nil_r, andb_true_r.
       destruct Hinv as (H1 & H2 & H3 & H4 & H5 & H6 & H7).
@@ -355,6 +363,25 @@ Proof.
         try (apply H4; assumption); try (apply H5; assumption).
   - simpl. rewrite app_nil_r, andb_true_r. exact Hinv.
 Qed.
+
+Lemma inv_struct_step pre s l s' vs :
+  inv_struct pre s -> check_line s (length pre) l = Ok (s', vs) -> inv_struct (pre ++ [l]) s'.
+Proof.
+  intros Hinv Hck x. destruct (Hinv x) as [H1 H2].
+  rewrite (check_line_var _ _ _ _ _ x Hck).
+  rewrite writes_of_app. simpl writes_of. simpl Nat.add. rewrite app_nil_r.
+  unfold entry. destruct (l_body l) as [a|].
+  - destruct (apply_reads_fields x (uses (a_val a))
+               (if str_eqb (a_var a) x then var_write (mv s x) (length pre) a false else mv s x))
+      as (R1 & _ & _ & R4 & _).
+    rewrite R1, R4. destruct (str_eqb (a_var a) x).
+    + rewrite var_write_writes, var_write_cond, H1, H2. split; reflexivity.
+    + rewrite app_nil_r. split; assumption.
+  - rewrite app_nil_r. split; assumption.
+Qed.
+
+Lemma plain_on_app x a b : plain_on x (a ++ b) = plain_on x a && plain_on x b.
+Proof. unfold plain_on. apply forallb_app. Qed.
 
 (* ---------- 3. the verdicts of one line ---------- *)
 
